@@ -71,10 +71,24 @@ func genKey(t *rapid.T) string {
 	}
 }
 
+// tiedServers are two host names that receive the same 64-bit score for every key of five bytes (the hash
+// is not collision resistant: a difference in one 8-byte lane is cancelled in the same lane of the next
+// 32-byte stripe, and that lane does not see a five byte key). Random names never tie, so the pair is part
+// of the generator: with both in the list the owner has to be the same for every order of the list.
+var tiedServers = [2]string{
+	"sdb68uhz2cn-0.semadb.cluster.local.4ahaa0ak.internal.example:11001",
+	"sdbgffef6am-0.semadb.cluster.local.am0o3hh0.internal.example:11001",
+}
+
 func genCase(t *rapid.T) Case {
 	n := rapid.IntRange(1, 16).Draw(t, "n")
 	seen := map[string]bool{}
 	servers := make([]string, 0, n)
+	tied := n >= 2 && rapid.IntRange(0, 7).Draw(t, "tied") == 0
+	if tied {
+		servers = append(servers, tiedServers[0], tiedServers[1])
+		seen[tiedServers[0]], seen[tiedServers[1]] = true, true
+	}
 	for len(servers) < n {
 		s := genServerName(t, fmt.Sprintf("s%d", len(servers)))
 		if seen[s] {
@@ -91,8 +105,12 @@ func genCase(t *rapid.T) Case {
 	for seen[added] {
 		added += "+"
 	}
+	key := genKey(t)
+	if tied {
+		key = rapid.StringMatching(`[a-z0-9]{5}`).Draw(t, "key-five")
+	}
 	return Case{
-		Key:     genKey(t),
+		Key:     key,
 		Servers: servers,
 		Perm:    perm,
 		Added:   added,
@@ -186,6 +204,12 @@ func execCase(c Case) vt.Result {
 		}
 	}
 	rec.Count(fmt.Sprintf("servers_%02d", n), 1)
+	if slices.Contains(c.Servers, tiedServers[0]) && slices.Contains(c.Servers, tiedServers[1]) && len(c.Key) == 5 {
+		rec.Count("two_servers_with_equal_scores", 1)
+		if full[0] == tiedServers[0] || full[0] == tiedServers[1] {
+			rec.Count("tie_for_the_first_place", 1)
+		}
+	}
 	res.NonTrivial = n >= 3 && !identity
 	return res
 }
